@@ -216,12 +216,28 @@ LayoutCells(cl, rot) ==
 CellKind(cl) == CASE cl.type = "simple" -> "hex" [] cl.type = "3sec" -> "sec3" [] cl.type = "square" -> "square"
 CellShape(cl, p) == [kind |-> CellKind(cl), pos |-> p, r |-> cl.r, w |-> cl.r, h |-> cl.r, rad |-> Q0, ipos |-> p]
 
+\* Cluster size N = i^2 + i j + j^2 (i >= j >= 0): the neighbouring clusters of a tiling sit at the six
+\* period vectors "i steps in one lattice direction, j steps after a 60 degree turn" (left: chirality 1,
+\* right: 2), a step being two apothems.  The cluster radius is half that distance.
+IJ(n) == CHOOSE ij \in (0..4) \X (0..4) : ij[1] >= ij[2] /\ ij[1] * ij[1] + ij[1] * ij[2] + ij[2] * ij[2] = n
+Period(cl, rot, chir, m) ==
+   LET step == QMul(cl.r, QSqrt3)
+       ij   == IJ(cl.n)
+       t0   == PAdd(PScale(QMulI(ij[1], step), Cis(1)), PScale(QMulI(ij[2], step), Cis(IF chir = 1 THEN 3 ELSE 11)))
+   IN  Rot(DegK(rot) + 2 * m, t0)
+RECURSIVE AllVerts(_, _, _)
+AllVerts(cl, P, rot) == IF P = <<>> THEN <<>> ELSE Verts(CellShape(cl, Head(P)), rot) \o AllVerts(cl, Tail(P), rot)
 LayoutOut(cl, rot) ==
    LET P == LayoutCells(cl, rot)
+       A == AllVerts(cl, P, rot)
    IN  [cells  |-> P,
         vfirst |-> Verts(CellShape(cl, P[1]), rot),
         vlast  |-> Verts(CellShape(cl, P[cl.n]), rot),
-        rad2   |-> Rad2(CellShape(cl, P[1]))]
+        rad2   |-> Rad2(CellShape(cl, P[1])),
+        \* (cluster radius)^2 = (half the distance to a neighbouring cluster)^2, hexagonal lattices only
+        crad2  |-> IF cl.type = "square" THEN Q0 ELSE QDivI(Norm2(Period(cl, rot, 1, 0)), 4),
+        \* (external radius)^2: the smallest circle around the cluster position containing every cell
+        ext2   |-> QMaxSeq([i \in 1..Len(A) |-> Dist2(A[i], cl.pos)])]
 Layout ==
    /\ "layout" \in Ops /\ c.op = "init"
    /\ \E i \in 1..Len(Clusters), rot \in CRots :
@@ -258,11 +274,6 @@ DistMat ==
 \*   T_m = rot60^m (3 steps in one lattice direction, then 2 steps after a 60 degree turn),
 \* a step being two apothems; turning left or right gives the two mirror tilings (chirality 1 / 2).
 \* The wrapped cells are the cells of the neighbouring clusters within 4 rings of the centre.
-Period(cl, rot, chir, m) ==
-   LET step == QMul(cl.r, QSqrt3)
-       t0   == IF chir = 1 THEN PAdd(PScale(QMulI(3, step), Cis(1)), PScale(QMulI(2, step), Cis(3)))
-                           ELSE PAdd(PScale(QMulI(3, step), Cis(1)), PScale(QMulI(2, step), Cis(11)))
-   IN  Rot(DegK(rot) + 2 * m, t0)
 WrapSet(cl, P, rot, chir) ==
    LET T == [m \in 0..5 |-> Period(cl, rot, chir, m)]
        lim == QMulI(48, QSq(cl.r))
@@ -492,6 +503,17 @@ LayoutLaws ==
          /\ n > 1 => \A i \in 1..n : \E j \in 1..n : j # i /\ OnBoundary(Blown(cl, P[i], c.rot), P[j])
          \* congruent: every cell is the first one moved to its centre
          /\ out.vlast = Translate(out.vfirst, PSub(P[n], P[1]))
+\* the cluster radius: the six neighbouring copies of the cluster at twice that distance do not overlap it
+\* (for one of the two mirror tilings), and N cells of area A fill a period cell: |T|^2 = N (2 apothem)^2
+ClusterRadiusLaws ==
+   (c.op = "layout" /\ c.cl.type # "square") =>
+     LET cl == c.cl
+         P  == out.cells
+         free(chir) == \A m \in 0..5 : \A i, j \in 1..cl.n :
+                          QLe(Touch2(cl), Dist2(PAdd(P[i], Period(cl, c.rot, chir, m)), P[j]))
+     IN  /\ QMulI(4, out.crad2) = QMulI(3 * cl.n, QSq(cl.r))
+         /\ free(1) \/ free(2)
+         /\ \A i \in 1..cl.n : QLe(Dist2(P[i], cl.pos), out.ext2)
 \* 3-sector cells: no sector of one cell overlaps a sector of another cell
 Sec3NoOverlap ==
    (c.op = "layout" /\ c.cl.type = "3sec") =>
